@@ -608,7 +608,7 @@ def grid_cases(cx, st):
         cases.append(Case(p, "grid", ALPHABET, 4, s3=cx.n(7, 1), s4=0, salt=rng.randrange(0, 7), tag="R1<=%d,len4" % cx.n(2, 3)))
     # beyond the exhaustive bound: random larger members of R1
     seen = set(pats)
-    for n, cnt in ((full + 1, cx.n(900, 40000)), (full + 2, cx.n(400, 20000)), (full + 4, cx.n(200, 8000))):
+    for n, cnt in ((full + 1, cx.n(900, 25000)), (full + 2, cx.n(400, 12000)), (full + 4, cx.n(200, 5000))):
         for _ in range(cnt):
             p = random_re(rng, n)
             if p in seen:
@@ -617,7 +617,7 @@ def grid_cases(cx, st):
             cases.append(Case(p, "grid", ALPHABET, 3, s3=cx.n(5, 1), s4=0, salt=rng.randrange(0, 5), tag="R1=%d,sampled" % n))
     # malformed stream: token soup (mostly not XSD); the routes must still agree, and where the spec accepts, so must the verdicts
     TOK = ATOMS + QUANTS + ["(", ")", "|", "[", "]", "{", "}", "\\", "{2}", "{1,}", "{,2}", "{2,1}", "a-", "[a", "b]", "[]", "[^]", "()", "\\p{L}", "\\e", "?"]
-    for _ in range(cx.n(1000, 30000)):
+    for _ in range(cx.n(1000, 20000)):
         p = "".join(rng.choice(TOK) for _ in range(rng.randrange(1, 6)))
         if p in seen:
             continue
